@@ -258,6 +258,8 @@ Section Elemwise.
   Variable veqb : V -> V -> bool.
   Variable vzero : V.                     (* _zero_of_dtype; also the default of out-of-range reads *)
   Variable f : list V -> V.               (* the function applied, on the list of operand values *)
+  Variable scal : nat -> bool.            (* which operand positions hold a Python / NumPy SCALAR (not an ndarray):
+                                             only the fill-value fallback for zero-size ndarrays tells them apart *)
   Variable srt : list Z -> list nat.      (* np.argsort inside _match_coo: ANY sorting permutation (its default
                                              kind is unstable); the correspondence instantiates it with the
                                              stable [argsort], the theorems hold for every choice *)
@@ -381,8 +383,13 @@ Section Elemwise.
                      | OSp c => c_fill c
                      | ODn d => dense_get vzero d (bcast_idx (d_shape d) q) end) args).
 
+  (* the IndexError fallback of _get_fill_value (func(fills, ndarrays) is an EMPTY array):
+     arg.fill_value if COO, _zero_of_dtype(arg.dtype) if ndarray, else the scalar itself *)
   Definition zeros_fill (args : list operand) : V :=
-    f (map (fun a => match a with OSp c => c_fill c | ODn _ => vzero end) args).
+    f (map (fun ia => match snd ia with
+                      | OSp c => c_fill c
+                      | ODn d => if scal (fst ia) then hd vzero (d_flat d) else vzero
+                      end) (combine (seq 0 (length args)) args)).
 
   Inductive fill_outcome := FillSparse (fill : V) | FillDense | FillError.
 
@@ -407,7 +414,7 @@ Section Elemwise.
          Some (mkCOO sh (map fst es') (map snd es') fill).
 
   (* _Elemwise(func, *args).get_result()  (operands already converted to COO / ndarray) *)
-  Definition elemwise (args0 : list operand) : outcome :=
+  Definition elemwise_sc (args0 : list operand) : outcome :=
     if negb (existsb is_sparse args0) then OutErr ValueError else
     let args := map preprocess args0 in
     match nary_broadcast_shape (map op_shape args),
@@ -456,6 +463,12 @@ Section Elemwise.
     mkCOO sh (map fst es) (map snd es) fill.
 
 End Elemwise.
+
+(* no operand position holds a Python scalar (or none next to a zero-size ndarray: the only place where the
+   distinction is visible) *)
+Definition elemwise (V : Type) (veqb : V -> V -> bool) (vzero : V) (f : list V -> V) (srt : list Z -> list nat)
+           (args : list (operand V)) : outcome V :=
+  elemwise_sc V veqb vzero f (fun _ => false) srt args.
 
 Arguments OSp {V}.
 Arguments ODn {V}.
